@@ -27,6 +27,8 @@ def main():
     try:
         core.ensure_built()
         core.assert_repo()
+        from harness import cover
+        cover.start(core.REPO)
         mod = importlib.import_module("harness.props." + prop.lower())
         if args.replay:
             payload = json.load(open(args.replay, encoding="utf8"))
